@@ -233,9 +233,9 @@ def cleanRun (env : Env) (fin : St) : Nat → St → Prog → Bool
 /-- **Replay.** A clean run that returns `v`, re-evaluated in (a state with the map of) the cache
 the load ended in, is a tracked hit-only run with the same value and the same record: every asset it
 loaded is cached there (keep-first, no lost insertion), every key it probed in vain is still absent. -/
-theorem clean_replay {env : Env} (hS : env.Steady) (fin : St) :
+theorem clean_replay {env : Env} (hS : env.Steady) {fin0 fin : St} (hfin : ∀ k, fin0.lookup k = none → fin.lookup k = none) :
     ∀ (f : Nat) (p : Prog) (s : St) (ds : List Dep) (rs : List (Option (List Dep))) (v : Val),
-    s.recs = some ds :: rs → cleanRun env fin f s p = true → (eval env f s p).2 = .ok v →
+    s.recs = some ds :: rs → cleanRun env fin0 f s p = true → (eval env f s p).2 = .ok v →
     (eval env f s p).1.Le fin →
     ∀ (t : St) (rt : List (Option (List Dep))), (∀ k, t.lookup k = fin.lookup k) → t.recs = some ds :: rt →
       hitRun env f t p = true ∧ (eval env f t p).2 = .ok v ∧ (eval env f t p).1.top = (eval env f s p).1.top := by
@@ -285,7 +285,7 @@ theorem clean_replay {env : Env} (hS : env.Steady) (fin : St) :
         | none =>
           rw [hl] at hp
           simp only [Option.isSome_none, Bool.false_or, Option.isNone_iff_eq_none] at hp
-          exact hp
+          exact hfin key hp
       rw [hlk]
       exact ih _ _ _ _ v (St.record_recs hs _) hc ho hle _ rt
         (fun k => (St.record_lookup t true _ k).trans (ht k)) (St.record_recs htr _)
@@ -371,14 +371,15 @@ theorem leaveErr_out (recs) (sb : St) : (St.leaveErr recs sb).out = sb.out := by
   unfold St.leaveErr; rw [St.recordAll_out]
 
 /-- the registration a successful nested load sends is good in the final cache -/
-theorem clean_msg_good {env : Env} (hS : env.Steady) {fuel : Nat} {fin : St} {f : Nat} (hf : f ≤ fuel)
+theorem clean_msg_good {env : Env} (hS : env.Steady) {fuel : Nat} {fin0 fin : St}
+    (hfin : ∀ k, fin0.lookup k = none → fin.lookup k = none) {f : Nat} (hf : f ≤ fuel)
     {s0 : St} {key : Key} {sb : St} {v : Val} {rs : List (Option (List Dep))}
     (hs0 : s0.recs = some [] :: rs)
-    (hc : cleanRun env fin f s0 ((env.types key.ty).prog key.id) = true)
+    (hc : cleanRun env fin0 f s0 ((env.types key.ty).prog key.id) = true)
     (hbody : eval env f s0 ((env.types key.ty).prog key.id) = (sb, .ok v))
     (hle : sb.Le fin) {c : Cell} (hcell : fin.lookup key = some c) (hv : c.val = v) :
     MsgGood env fuel fin key sb.top := by
-  have hrep := clean_replay hS fin f _ s0 [] rs v hs0 hc (by rw [hbody]) (by rw [hbody]; exact hle)
+  have hrep := clean_replay hS hfin f _ s0 [] rs v hs0 hc (by rw [hbody]) (by rw [hbody]; exact hle)
     fin.fresh [] (fun _ => rfl) rfl
   rw [hbody] at hrep
   obtain ⟨r1, r2, r3⟩ := hrep
@@ -390,8 +391,9 @@ theorem clean_msg_good {env : Env} (hS : env.Steady) {fuel : Nat} {fin : St} {f 
 /-- **Every registration of a clean run is good**: each `AddAsset` message the run adds to the channel
 names an asset that is cached in the final cache `fin`, holds there what re-evaluating its loader
 returns, and carries exactly what that re-evaluation reads. -/
-theorem clean_msgs {env : Env} (hS : env.Steady) (fuel : Nat) (fin : St) :
-    ∀ (f : Nat) (p : Prog) (s : St), f ≤ fuel → cleanRun env fin f s p = true → (eval env f s p).1.Le fin →
+theorem clean_msgs {env : Env} (hS : env.Steady) (fuel : Nat) {fin0 fin : St}
+    (hfin : ∀ k, fin0.lookup k = none → fin.lookup k = none) :
+    ∀ (f : Nat) (p : Prog) (s : St), f ≤ fuel → cleanRun env fin0 f s p = true → (eval env f s p).1.Le fin →
     ∀ m, m ∈ (eval env f s p).1.out → m ∈ s.out ∨ ∃ k D, m = .addAsset k D ∧ MsgGood env fuel fin k D := by
   intro f
   induction f with
@@ -464,7 +466,7 @@ theorem clean_msgs {env : Env} (hS : env.Steady) (fuel : Nat) (fin : St) :
               · exact ihb hsb m h
               · refine Or.inr ⟨key, sb.top, h, ?_⟩
                 have hs0 : (s.record true (.asset key)).enter.recs = some [] :: (s.record true (.asset key)).recs := rfl
-                exact clean_msg_good hS hf' hs0 hcb hbody hsb
+                exact clean_msg_good hS hfin hf' hs0 hcb hbody hsb
                   (hle1 key _ (leaveOk_lookup_self env key v' _ sb hnl)) rfl
             · exact Or.inr h
           | err e =>
@@ -486,5 +488,256 @@ theorem clean_msgs {env : Env} (hS : env.Steady) (fuel : Nat) (fin : St) :
     | onThread body k => simp only [cleanRun] at hc; cases hc
     | tryCatch body k => simp only [cleanRun] at hc; cases hc
     | loadOwned key k => simp only [cleanRun] at hc; cases hc
+
+/-! ## Every asset a clean run caches is registered -/
+
+theorem leaveOk_lookup_other (env : Env) (key : Key) (v : Val) (recs) (sb : St) (k : Key) (hk : k ≠ key) :
+    (St.leaveOk env key v recs sb).lookup k = sb.lookup k := by
+  unfold St.leaveOk
+  rw [St.own_lookup]
+  exact St.insertKeepFirst_other (St.send { sb with recs := recs } (.addAsset key sb.top)) key k _ hk
+
+/-- A clean run keeps the messages of the channel, and sends an `AddAsset` for every key it caches. -/
+theorem clean_registers {env : Env} (fin : St) :
+    ∀ (f : Nat) (p : Prog) (s : St), cleanRun env fin f s p = true →
+    (∀ m, m ∈ s.out → m ∈ (eval env f s p).1.out) ∧
+    (∀ k c, (eval env f s p).1.lookup k = some c → s.lookup k = some c ∨ ∃ D, Msg.addAsset k D ∈ (eval env f s p).1.out) := by
+  intro f
+  induction f with
+  | zero => intro p s _; exact ⟨fun _ h => h, fun _ _ h => Or.inl h⟩
+  | succ f ih =>
+    intro p s hc
+    have base : (∀ m, m ∈ s.out → m ∈ s.out) ∧ (∀ k c, s.lookup k = some c → s.lookup k = some c ∨ ∃ D, Msg.addAsset k D ∈ s.out) :=
+      ⟨fun _ h => h, fun _ _ h => Or.inl h⟩
+    cases p with
+    | ret v => exact base
+    | fail e => exact base
+    | panic => exact base
+    | read id ext k =>
+      simp only [cleanRun, Bool.and_eq_true] at hc
+      obtain ⟨hb, hc⟩ := hc
+      simp only [eval, hb]
+      obtain ⟨i1, i2⟩ := ih _ _ hc
+      refine ⟨fun m hm => i1 m (by rw [← St.record_out s true (.file id ext)] at hm; exact hm), fun x c hx => ?_⟩
+      rcases i2 x c hx with h | h
+      · exact Or.inl ((St.lookup_congr (St.record_map s true (.file id ext)) x).symm.trans h)
+      · exact Or.inr h
+    | readDir id k =>
+      simp only [cleanRun, Bool.and_eq_true] at hc
+      obtain ⟨hb, hc⟩ := hc
+      simp only [eval, hb]
+      obtain ⟨i1, i2⟩ := ih _ _ hc
+      refine ⟨fun m hm => i1 m (by rw [← St.record_out s true (.dir id)] at hm; exact hm), fun x c hx => ?_⟩
+      rcases i2 x c hx with h | h
+      · exact Or.inl ((St.lookup_congr (St.record_map s true (.dir id)) x).symm.trans h)
+      · exact Or.inr h
+    | getCached key k =>
+      simp only [cleanRun, Bool.and_eq_true] at hc
+      obtain ⟨⟨hb, _⟩, hc⟩ := hc
+      simp only [eval, hb, St.record_lookup]
+      obtain ⟨i1, i2⟩ := ih _ _ hc
+      refine ⟨fun m hm => i1 m (by rw [← St.record_out s true (.asset key)] at hm; exact hm), fun x c hx => ?_⟩
+      rcases i2 x c hx with h | h
+      · exact Or.inl ((St.record_lookup s true _ x).symm.trans h)
+      · exact Or.inr h
+    | tick k =>
+      simp only [cleanRun] at hc
+      simp only [eval]
+      exact ih _ _ hc
+    | load key k =>
+      simp only [cleanRun, Bool.and_eq_true] at hc
+      obtain ⟨hb, hc⟩ := hc
+      cases hl : s.lookup key with
+      | some c =>
+        rw [hl] at hc
+        simp only [] at hc
+        rw [eval_load_hit env f s key k c hl, hb]
+        obtain ⟨i1, i2⟩ := ih _ _ hc
+        refine ⟨fun m hm => i1 m (by rw [← St.record_out s true (.asset key)] at hm; exact hm), fun x c hx => ?_⟩
+        rcases i2 x c hx with h | h
+        · exact Or.inl ((St.record_lookup s true _ x).symm.trans h)
+        · exact Or.inr h
+      | none =>
+        rw [hl] at hc
+        simp only [Bool.and_eq_true] at hc
+        obtain ⟨hcb, hc⟩ := hc
+        have hout0 : (s.record true (.asset key)).enter.out = s.out := St.record_out s true _
+        have hlk0 : ∀ x, (s.record true (.asset key)).enter.lookup x = s.lookup x := fun x => St.record_lookup s true _ x
+        cases hbody : eval env f (s.record true (.asset key)).enter ((env.types key.ty).prog key.id) with
+        | mk sb ob =>
+          rw [hbody] at hc
+          obtain ⟨b1, b2⟩ := ih ((env.types key.ty).prog key.id) (s.record true (.asset key)).enter hcb
+          rw [hbody] at b1 b2
+          simp only [hout0, hlk0] at b1 b2
+          cases ob with
+          | ok v' =>
+            simp only [Bool.and_eq_true, Option.isNone_iff_eq_none] at hc
+            obtain ⟨hnl, hc⟩ := hc
+            rw [eval_load_miss_ok env f s key k hb hl hbody hnl]
+            obtain ⟨i1, i2⟩ := ih _ _ hc
+            have hmsg : Msg.addAsset key sb.top ∈ (St.leaveOk env key v' (s.record true (.asset key)).recs sb).out := by
+              rw [leaveOk_out]; exact List.mem_append_right _ (List.mem_singleton.mpr rfl)
+            refine ⟨fun m hm => i1 m (by rw [leaveOk_out]; exact List.mem_append_left _ (b1 m hm)), fun x c hx => ?_⟩
+            rcases i2 x c hx with h | h
+            · by_cases hxk : x = key
+              · subst hxk; exact Or.inr ⟨sb.top, i1 _ hmsg⟩
+              · rw [leaveOk_lookup_other env key v' _ sb x hxk] at h
+                rcases b2 x c h with h2 | ⟨D, h2⟩
+                · exact Or.inl h2
+                · exact Or.inr ⟨D, i1 _ (by rw [leaveOk_out]; exact List.mem_append_left _ h2)⟩
+            · exact Or.inr h
+          | err e =>
+            simp only [Bool.and_eq_true] at hc
+            rw [eval_load_miss env f s key k hb hl, hbody]
+            simp only []
+            obtain ⟨i1, i2⟩ := ih _ _ hc.1
+            refine ⟨fun m hm => i1 m (by rw [leaveErr_out]; exact b1 m hm), fun x c hx => ?_⟩
+            rcases i2 x c hx with h | h
+            · rw [St.lookup_congr (leaveErr_map (s.record true (.asset key)).recs sb) x] at h
+              rcases b2 x c h with h2 | ⟨D, h2⟩
+              · exact Or.inl h2
+              · exact Or.inr ⟨D, i1 _ (by rw [leaveErr_out]; exact h2)⟩
+            · exact Or.inr h
+          | panicked =>
+            rw [eval_load_miss env f s key k hb hl, hbody]
+            exact ⟨b1, b2⟩
+          | diverged =>
+            rw [eval_load_miss env f s key k hb hl, hbody]
+            exact ⟨b1, b2⟩
+    | noRecord body k => simp only [cleanRun] at hc; cases hc
+    | onThread body k => simp only [cleanRun] at hc; cases hc
+    | tryCatch body k => simp only [cleanRun] at hc; cases hc
+    | loadOwned key k => simp only [cleanRun] at hc; cases hc
+
+/-! ## `Settled` through the registrations, and for the assets cached before -/
+
+theorem SettledAt.of_deps_eq {env : Env} {fuel : Nat} {s : St} {n n' : GNode} {k : Key} {c : Cell}
+    (h : SettledAt env fuel s n k c) (e : n.deps = n'.deps) : SettledAt env fuel s n' k c :=
+  ⟨h.hit, by rw [← e]; exact h.res⟩
+
+/-- `Settled` depends on the cache only through its map. -/
+theorem settled_congr {env : Env} (hS : env.Steady) {fuel : Nat} {s t : St} {g : Graph}
+    (h : ∀ k, t.lookup k = s.lookup k) (hs : Settled env fuel s g) : Settled env fuel t g := by
+  intro k node c hg ht hc hd
+  rw [h k] at hc
+  exact ((hs k node c hg ht hc hd).transfer hS hS (SameLoaders.refl hS)
+    (fun d _ => agreeOn_same_env (fun y _ => h y)) (c' := c) (node' := node) rfl rfl).1
+
+/-- `Settled`, except for the keys that have a registration pending in `msgs` -/
+def SettledBut (env : Env) (fuel : Nat) (t : St) (g : Graph) (msgs : List Msg) : Prop :=
+  ∀ k node c, g.get (.asset k) = some node → node.typed = true → t.lookup k = some c → c.dyn = true →
+    SettledAt env fuel t node k c ∨ ∃ D, Msg.addAsset k D ∈ msgs
+
+/-- what the reloader does with the messages of the channel (`processMsgs`) -/
+def drain (msgs : List Msg) (r : RSt) : RSt :=
+  msgs.foldl (fun r m =>
+    match m with
+    | .addAsset key deps => { r with graph := r.graph.insertAsset (.asset key) deps }
+    | .clear => { r with toReload := [] }) r
+
+theorem processMsgs_eq (s : St) (r : RSt) : processMsgs s r = ({ s with out := [] }, drain s.out r) := rfl
+
+/-- registering a good message settles its key and leaves the others alone -/
+theorem settledBut_insert {env : Env} {fuel : Nat} {t : St} {g : Graph} {k : Key} {D : List Dep} {ms : List Msg}
+    (h : SettledBut env fuel t g (.addAsset k D :: ms)) (hk : MsgGood env fuel t k D) :
+    SettledBut env fuel t (g.insertAsset (.asset k) D) ms := by
+  intro x node' c hg' ht' hc' hd'
+  by_cases hxk : x = k
+  · subst hxk
+    obtain ⟨n', hn', _, hnd'⟩ := insertAsset_get_self g (.asset x) D
+    rw [hn'] at hg'
+    have en : n' = node' := by simpa using hg'
+    subst en
+    obtain ⟨c0, hc0, m1, m2, m3⟩ := hk
+    rw [hc0] at hc'
+    have ec : c0 = c := by simpa using hc'
+    subst ec
+    exact Or.inl ⟨m1, Or.inl ⟨m2, fun d => by rw [m3, hnd']⟩⟩
+  · have hne : Dep.asset x ≠ Dep.asset k := fun e => hxk (Dep.asset.inj e)
+    rcases insertAsset_get_ne hne hg' with ⟨n, hn, hnt, hnd'⟩ | ⟨_, hf, _⟩
+    · rcases h x n c hn (hnt.trans ht') hc' hd' with h1 | ⟨D', h1⟩
+      · exact Or.inl (h1.of_deps_eq hnd')
+      · rcases List.mem_cons.mp h1 with e | e
+        · exact absurd (Msg.addAsset.inj e).1 hxk
+        · exact Or.inr ⟨D', e⟩
+    · rw [hf] at ht'; cases ht'
+
+/-- draining a channel of good registrations: everything registered and cached is settled -/
+theorem settledBut_drain {env : Env} {fuel : Nat} {t : St} :
+    ∀ (msgs : List Msg) (r : RSt), (∀ m, m ∈ msgs → ∃ k D, m = .addAsset k D ∧ MsgGood env fuel t k D) →
+    SettledBut env fuel t r.graph msgs → Settled env fuel t (drain msgs r).graph := by
+  intro msgs
+  induction msgs with
+  | nil =>
+    intro r _ h k node c hg ht hc hd
+    rcases h k node c hg ht hc hd with h1 | ⟨_, h1⟩
+    · exact h1
+    · cases h1
+  | cons m ms ih =>
+    intro r hm h
+    obtain ⟨k, D, e, hk⟩ := hm m List.mem_cons_self
+    subst e
+    exact ih { r with graph := r.graph.insertAsset (.asset k) D } (fun m' h' => hm m' (List.mem_cons_of_mem _ h'))
+      (settledBut_insert h hk)
+
+/-- the load fills no key that a registered, cached, dynamic asset depends on while it is absent
+(an asset that probed such a key with `get_cached` would see another answer now) -/
+def NoProbedKeyFilled (s t : St) (g : Graph) : Prop :=
+  ∀ k node c, g.get (.asset k) = some node → node.typed = true → s.lookup k = some c → c.dyn = true →
+    ∀ y, Dep.asset y ∈ node.deps → s.lookup y = none → t.lookup y = none
+
+/-- the assets that were cached and settled before stay settled in every extension of the cache
+that fills none of the keys they probed in vain -/
+theorem settled_keep {env : Env} (hS : env.Steady) {fuel : Nat} {s t : St} {g : Graph}
+    (hset : Settled env fuel s g) (hle : s.Le t) (hfill : NoProbedKeyFilled s t g)
+    {k : Key} {node : GNode} {c : Cell} (hg : g.get (.asset k) = some node) (ht : node.typed = true)
+    (hc : s.lookup k = some c) (hd : c.dyn = true) : SettledAt env fuel t node k c := by
+  have h0 := hset k node c hg ht hc hd
+  refine (h0.transfer hS hS (SameLoaders.refl hS) (fun d hdd => agreeOn_same_env (fun y e => ?_))
+    (c' := c) (node' := node) rfl rfl).1
+  subst e
+  cases hy : s.lookup y with
+  | some cy => exact hle y cy hy
+  | none => exact hfill k node c hg ht hc hd y (h0.deps_sub _ hdd) hy
+
+/-! ## One load -/
+
+/-- **A top-level evaluation establishes and preserves `Settled`.** `s`: the cache, channel drained;
+`r`: the reloader's data; everything registered and cached is settled. After a clean loading run of
+`p` from the API (empty recording stack) and after the reloader has taken the registrations the run
+sent, everything registered and cached is settled again — the assets cached before (untouched:
+`eval_mono`; what they read did not change) and every asset the run cached on the way (each holds
+what re-evaluating its loader returns, registered with exactly what that re-evaluation reads). -/
+theorem evalTop_settles {env : Env} (hS : env.Steady) {fuel : Nat} {s : St} {r : RSt} (p : Prog)
+    (hout : s.out = []) (hset : Settled env fuel s r.graph)
+    (hclean : cleanRun env (evalTop env fuel s p).1 fuel { s with recs := [] } p = true)
+    (hfill : NoProbedKeyFilled s (evalTop env fuel s p).1 r.graph) :
+    Settled env fuel (processMsgs (evalTop env fuel s p).1 r).1 (processMsgs (evalTop env fuel s p).1 r).2.graph ∧
+    (processMsgs (evalTop env fuel s p).1 r).1.out = [] := by
+  refine ⟨?_, rfl⟩
+  rw [processMsgs_eq]
+  -- the raw final state of the evaluation
+  generalize hfin : (eval env fuel { s with recs := [] } p).1 = fin
+  have hlk : ∀ k, (evalTop env fuel s p).1.lookup k = fin.lookup k := fun k => by rw [← hfin]; rfl
+  have houtE : (evalTop env fuel s p).1.out = fin.out := by rw [← hfin]; rfl
+  have hle0 : St.Le { s with recs := [] } fin := by rw [← hfin]; exact eval_mono env fuel _ p
+  have hle : s.Le fin := (St.Le.of_map_eq (s := s) (t := { s with recs := [] }) rfl).trans hle0
+  have hfin0 : ∀ k, (evalTop env fuel s p).1.lookup k = none → fin.lookup k = none := fun k h => by rw [← hlk k]; exact h
+  have hmsgs := clean_msgs hS fuel hfin0 fuel p { s with recs := [] } (Nat.le_refl _) hclean
+    (by rw [hfin]; exact St.Le.refl fin)
+  obtain ⟨_, hreg⟩ := clean_registers (evalTop env fuel s p).1 fuel p { s with recs := [] } hclean
+  rw [hfin] at hmsgs hreg
+  refine settled_congr hS (s := fin) (fun k => hlk k) ?_
+  rw [houtE]
+  refine settledBut_drain fin.out r (fun m hm => ?_) ?_
+  · rcases hmsgs m hm with h | h
+    · rw [show St.out { s with recs := [] } = s.out from rfl, hout] at h; cases h
+    · exact h
+  · intro k node c hg ht hc hd
+    rcases hreg k c hc with h | h
+    · refine Or.inl (settled_keep hS hset hle ?_ hg ht h hd)
+      intro k' node' c' hg' ht' hc' hd' y hy hn
+      rw [← hlk y]; exact hfill k' node' c' hg' ht' hc' hd' y hy hn
+    · exact Or.inr h
 
 end AmVerif.Model
